@@ -425,6 +425,48 @@ def leg_bad_bytes(ns, res, spec):
         if err != 'io' or w.rows != exp:
             res.violation('py:bad-byte-big-file', '[py] bad byte at offset %d of a %d-byte file: error %r, %d records delivered (intact prefix: %s)' % (p, len(data), err, len(w.rows), w.rows == exp), {'leg': 'bad-bytes-big', 'offset': p})
         res.count('records_delivered_before_decode_error', len(w.rows))
+    # CR / CRLF files with a line break sitting exactly on a read-buffer boundary (1 KiB reader chunks, 8 KiB decoder chunks) and the invalid byte
+    # somewhere in the buffer after it: the reader's look-ahead for the LF of a split CRLF pair is a read like any other
+    import tempfile
+    d = tempfile.mkdtemp(prefix='rv-c15-')
+    try:
+        for eol in (b'\r', b'\r\n', b'\n'):
+            for boundary_ in (1024, 2048, 8192, 16384, 24576):
+                for delta in (-1, 0, 1):
+                    target = boundary_ + delta          # the byte offset just after the CR
+                    # lines of 37 bytes + eol, the last one before the target padded so that its CR is the byte at target - 1
+                    body = b''
+                    k = 0
+                    while len(body) + 37 + len(eol) + 40 < target - 1:
+                        k += 1
+                        body += (b'r%06d,' % k) + b'x' * 29 + eol
+                    pad = target - 1 - len(body) - len(b'last,')
+                    body += b'last,' + b'y' * pad + (b'\r' if eol != b'\n' else b'\n')
+                    if eol == b'\r\n':
+                        body += b'\n'
+                    tail = b''.join((b't%04d,' % j) + b'z' * 20 + eol for j in range(400))
+                    for bad_at in (3, 700, 5000):
+                        data = body + tail[:bad_at] + b'\xff' + tail[bad_at:]
+                        for via in ('stream', 'file'):
+                            err = None
+                            try:
+                                if via == 'stream':
+                                    ns.rbql.query('select a1', ns.csv.CSVRecordIterator(io.BytesIO(data), 'utf-8', ',', 'quoted'), PW(boundary.Log()), [])
+                                else:
+                                    pth = os.path.join(d, 'big.csv')
+                                    with open(pth, 'wb') as f:
+                                        f.write(data)
+                                    ns.rbql.query_csv('select a1', pth, ',', 'quoted', os.path.join(d, 'o.csv'), ',', 'quoted', 'utf-8', [], False)
+                            except Exception as e:
+                                err = util.error_class(e) if 'Rbql' in type(e).__name__ else 'raw:' + type(e).__name__
+                            res.evaluations += 1
+                            res.count('bad_byte_after_boundary_break_runs')
+                            res.distinct_disjoint += 1
+                            if err != 'io':
+                                res.violation('py:bad-byte-not-io-error', '[py/%s] %d-byte file with %r line ends, a line break ending at byte %d and an invalid byte %d bytes later: error %r' % (via, len(data), eol, target, bad_at, err),
+                                              {'leg': 'bad-bytes-boundary', 'eol': eol.hex(), 'target': target, 'bad_at': bad_at, 'via': via})
+    finally:
+        shutil.rmtree(d, ignore_errors=True)
     res.sample({'leg': 'bad-bytes', 'file': good_text, 'offsets': len(good) + 1, 'sequences': [b.hex() for b in bads], 'chunk_sizes': [1, 2, 3, 7, 1024]})
 
 
@@ -683,9 +725,9 @@ def run_shard(spec, res):
 
 def summarize(tier, seed, m):
     return {
-        'rule': 'fault enumeration: for each of %d query shapes (streaming, WHERE, header, UPDATE, ORDER BY, TOP, GROUP BY, DISTINCT, DISTINCT COUNT, UNNEST, multi-match JOIN, LEFT JOIN star, None output) the output stream raises BrokenPipeError at every write index k in 1..writes+1 (text sink and raw byte sink behind the writer\'s TextIOWrapper; large outputs sampled), and a user writer returns False at every k; the same two fault enumerations over generated queries of every clause combination (C01-C05 generators, random tables); an invalid UTF-8 sequence at every offset x 7 sequences x 5 chunk sizes (Python reader) and x 6 deliveries x 2 policies through the JS bulk and stream readers, plus truncated sequences as the whole input or right after the last line break; the same invalid sequences with the table on standard input - in-process through a replaced sys.stdin whose own error handler is surrogateescape / replace / strict / ignore, and through the command line (stdin and --input) under LC_ALL=C, C.UTF-8, PYTHONUTF8=1, PYTHONIOENCODING=utf-8:replace / :strict, for queries that do and do not print the damaged cell; %d descriptor scenarios (success, parse / syntax / runtime / IO error, missing input, missing join table) x header flag with every file object opened by the CSV / sqlite front-ends tracked; the command line writing 30000 rows into a real OS pipe whose reader closes after N bytes (exit status 0, silent stderr, delivered bytes a prefix). distinct_nontrivial counts enumerated fault points.' % (len(SHAPES), len(DESCRIPTOR_SCENARIOS)),
+        'rule': 'fault enumeration: for each of %d query shapes (streaming, WHERE, header, UPDATE, ORDER BY, TOP, GROUP BY, DISTINCT, DISTINCT COUNT, UNNEST, multi-match JOIN, LEFT JOIN star, None output) the output stream raises BrokenPipeError at every write index k in 1..writes+1 (text sink and raw byte sink behind the writer\'s TextIOWrapper; large outputs sampled), and a user writer returns False at every k; the same two fault enumerations over generated queries of every clause combination (C01-C05 generators, random tables); an invalid UTF-8 sequence at every offset x 7 sequences x 5 chunk sizes (Python reader) and x 6 deliveries x 2 policies through the JS bulk and stream readers, plus truncated sequences as the whole input or right after the last line break; CR / CRLF / LF files of up to 35 KiB whose line break ends exactly at, one before or one after a 1 / 2 / 8 / 16 / 24 KiB buffer boundary with the invalid byte 3, 700 or 5000 bytes later (stream and query_csv); the same invalid sequences with the table on standard input - in-process through a replaced sys.stdin whose own error handler is surrogateescape / replace / strict / ignore, and through the command line (stdin and --input) under LC_ALL=C, C.UTF-8, PYTHONUTF8=1, PYTHONIOENCODING=utf-8:replace / :strict, for queries that do and do not print the damaged cell; %d descriptor scenarios (success, parse / syntax / runtime / IO error, missing input, missing join table) x header flag with every file object opened by the CSV / sqlite front-ends tracked; the command line writing 30000 rows into a real OS pipe whose reader closes after N bytes (exit status 0, silent stderr, delivered bytes a prefix). distinct_nontrivial counts enumerated fault points.' % (len(SHAPES), len(DESCRIPTOR_SCENARIOS)),
         'exhaustive': True,
-        'required': ['js_bad_byte_runs:bulk', 'js_bad_byte_runs:stream', 'generated_false_runs', 'generated_pipe_runs', 'generated_faults_triggered', 'broken_pipe_runs', 'broken_pipe:text', 'broken_pipe:bytes', 'faults_triggered', 'writer_protocol_runs', 'bad_byte_runs', 'bad_byte_big_runs', 'stdin_bad_byte_runs', 'cli_bad_byte_runs:stdin', 'cli_bad_byte_runs:file', 'records_delivered_before_decode_error', 'descriptor_runs', 'files_tracked', 'descriptor_runs_sqlite', 'real_pipe_runs'],
+        'required': ['js_bad_byte_runs:bulk', 'js_bad_byte_runs:stream', 'generated_false_runs', 'generated_pipe_runs', 'generated_faults_triggered', 'broken_pipe_runs', 'broken_pipe:text', 'broken_pipe:bytes', 'faults_triggered', 'writer_protocol_runs', 'bad_byte_runs', 'bad_byte_big_runs', 'bad_byte_after_boundary_break_runs', 'stdin_bad_byte_runs', 'cli_bad_byte_runs:stdin', 'cli_bad_byte_runs:file', 'records_delivered_before_decode_error', 'descriptor_runs', 'files_tracked', 'descriptor_runs_sqlite', 'real_pipe_runs'],
         'assumptions': ['"promptly": no further stream write and at most one further input read after the pipe broke', 'set_header has no return value, so a pipe that breaks while the header line is written can only be noticed at the first data write (one further write attempt tolerated in that phase only); a buffering query (aggregates, ORDER BY, DISTINCT COUNT) issues that write after it has consumed its input, so the read bound is applied to faults at data writes', 'finish being (not) called on failing runs is not demanded'],
     }
 
